@@ -45,6 +45,29 @@ claim("C02", "other",
       "rustc's resolution of callees and the Freeze answers of the trait solver.",
       "callee census, sibling agreement, trait-solver Freeze over rustc HIR", "DESIGN.md section 4, C02")
 
+claim("C03", "other",
+      "Per backend the escape function is extracted as an ordered replace chain and shown to be a per-character code; the "
+      "literal frame (including Postgres' E-prefix decision) is extracted from the template IR; the composition is decoded with "
+      "the dialect's documented lexer for every string up to length 3 over the escape-relevant alphabet (finite case split: "
+      "every character named anywhere + representatives of all others; length 3 covers every boundary interaction of the "
+      "lexers' escapes). Dataflow over the template IR of every writer function shows that whatever sits between single quotes "
+      "is escaped, hex or fixed-alphabet text; payloads reach the quoting routines without lossy conversion; bytes are a "
+      "two-digit hex hole per byte in the dialect's frame; no renderer formats a Value through Display.",
+      "Oracle = specs/lexical.json (lexers written from the manuals, server defaults assumed). Decides the text of the "
+      "literal, not that an engine stores it (engine-side encoding/collation is out of reach).",
+      "replace-chain extraction + dialect lexer oracle (exhaustive finite case split) + TIR dataflow", "DESIGN.md section 4, C03")
+
+claim("C06", "other",
+      "Every rewriting action of the condition builder (unwrap a single-member group, concatenate member lists, add as member, "
+      "wrap) is located on every control path and its path condition is tabulated over the complete abstract domain of groups "
+      "(negated x type x 0..3 members, for both operands) by abstract interpretation of the extracted guard expressions; the "
+      "guard must imply the precondition of the three-valued-logic identity the action relies on. Fold operators, empty-group "
+      "constants, whole-group negation, member order, the renderer's Empty/keyword behaviour and all public condition-adding "
+      "entry points are checked as finite tables.",
+      "The identities themselves are argued in DESIGN.md, not machine-checked; printing of the produced expression tree is "
+      "C05. Guards outside the interpreter's fragment fail closed.",
+      "path enumeration + guard tabulation by abstract interpretation over a finite domain", "DESIGN.md section 4, C06")
+
 claim("C10", "other",
       "MIR dominator analysis of InsertStatement::values/select_from: every write to the statement (in particular every "
       "write that stores rows or a SELECT source) is dominated by the equal edge of the comparison between columns.len() and "
@@ -73,6 +96,16 @@ claim("C15", "other",
       "Equality of rendering follows from equality of fields because renderers read nothing but the statement (C02.R4). "
       "Derive expansions are trusted to be field-wise.",
       "struct-literal/field-move census (HIR), derive census, trait-solver Freeze, MIR field-write census", "DESIGN.md section 4, C15")
+
+claim("C17", "proof",
+      "Proof by finite case analysis: the escape chain is one simultaneous per-character substitution h; the unescape loop is "
+      "tabulated as a finite-state transducer over all characters that occur in either function plus representatives of every "
+      "other character; from the plain state it maps h(c) to c and returns to the plain state for every class, hence "
+      "unescape(escape(s)) = s for all strings by induction. SQLite's pair is the quote-doubling pair (lemma). All impls of "
+      "EscapeBuilder in each configuration are enumerated.",
+      "Trusts the documented semantics of str::replace and str::chars; the transducer is obtained by interpreting the "
+      "extracted loop body over the finite character classes (the code compares characters only against literals).",
+      "replace-chain + transducer extraction, per-character case split", "DESIGN.md section 4, C17")
 
 claim("C18", "other",
       "In the hashable-value configuration: Value::eq is a diagonal total match (one arm per enabled variant, wildcard false), "
